@@ -1,6 +1,7 @@
 (* C08 -- base64url codec is a canonical bijection and respects output bounds.
    Only statements, each closed by [exact] of a lemma proved elsewhere. *)
 From JoseV Require Import Codec.B64Spec Codec.B64Impl Codec.B64Proofs Codec.B64ImplProofs Gen.Consts.
+From JoseV Require Import Base.Json Base.JsonParse Base.JsonDump Codec.B64Json Codec.B64JsonProofs.
 Local Open Scope N_scope.
 
 (* the alphabet the code uses (generated from include/jose/b64.h on every run)
@@ -94,6 +95,35 @@ Print Assumptions C08_enc_buf_refines.
 Theorem C08_enc_buf_query : forall ib, ret (enc_buf ib None) = Some (elen (blen ib)) /\ writes (enc_buf ib None) = [].
 Proof. exact enc_buf_query. Qed.
 Print Assumptions C08_enc_buf_query.
+
+(* the JSON-string, JSON-load, JSON-encode and JSON-dump forms are the raw-buffer form applied to the WHOLE
+   string value (every byte of it, an embedded NUL included) *)
+Theorem C08_json_dec : forall s ol,
+  jose_b64_dec (JStr s) (Some ol) = dec_buf s (Some ol) /\ ret (jose_b64_dec (JStr s) None) = dlen (blen s).
+Proof. exact b64_dec_json_spec. Qed.
+Print Assumptions C08_json_dec.
+
+Theorem C08_json_load : forall s,
+  jose_b64_dec_load (JStr s) = match dec s with Some bs => parse_any bs | None => None end.
+Proof. exact b64_dec_load_spec. Qed.
+Print Assumptions C08_json_load.
+
+Theorem C08_json_nonstring : forall j, is_string j = false -> jose_b64_dec_load j = None.
+Proof. exact b64_dec_load_nonstring. Qed.
+Print Assumptions C08_json_nonstring.
+
+Theorem C08_json_enc : forall ib, wf_bytes ib -> jose_b64_enc ib = Some (JStr (enc ib)).
+Proof. exact b64_enc_spec. Qed.
+Print Assumptions C08_json_enc.
+
+Theorem C08_json_dump : forall j,
+  jose_b64_enc_dump j = match dump_top j with Some t => jose_b64_enc (cstr t) | None => None end.
+Proof. exact b64_enc_dump_spec. Qed.
+Print Assumptions C08_json_dump.
+
+Example C08_ex_nul : ret (jose_b64_dec (JStr [90; 109; 57; 118; 0; 33; 33]) (Some 8)) = None
+                  /\ jose_b64_dec_load (JStr [77; 84; 73; 122; 0; 65]) = None.
+Proof. vm_compute. split; reflexivity. Qed.
 
 (* non-vacuity: "Man" / "TWFu", a rejected non-canonical text, a bounded partial write *)
 Example C08_ex1 : enc [77; 97; 110] = [84; 87; 70; 117] /\ dec [84; 87; 70; 117] = Some [77; 97; 110].
